@@ -11,25 +11,7 @@ UNITS = {"Micro": 1, "Nano": 1000, "Angstrom": 10000, "Pico": 1000000}  # raw un
 NORMALISERS = ("Decimal::trunc", "Decimal::normalize", "Decimal::round", "Decimal::round_dp", "Decimal::floor", "Decimal::ceil", "Decimal::rescale", "Decimal::trunc_with_scale")
 
 
-def always_err(F, fid, seen=None):
-    """function whose every normal return assigns an Err (or diverges)"""
-    f = F.fns.get(fid)
-    if f is None:
-        return False
-    b = Body(f)
-    okb, errb = od.ret_kind_blocks(b)
-    if okb:
-        # `_0 = <plain value>` counts as ok; Err aggregates are in errb
-        return False
-    # blocks assigning _0 by call: must themselves be always-Err callees
-    for bi, t in b.calls():
-        if t["dest"]["l"] == 0 and not t["dest"]["p"]:
-            cid = callee_id(t)
-            if "from_residual" in (callee_name(t) or ""):
-                continue
-            if cid == fid or not always_err(F, cid):
-                return False
-    return bool(errb)
+from analysis.ordering import always_err
 
 
 def run(ctx):
